@@ -69,6 +69,7 @@ class StoreAdapter(Adapter):
         ctx.dir = Path(tempfile.mkdtemp(prefix="c13-", dir=self.root))
         ctx.variant = variant
         ctx.lastlog = {}
+        ctx.fresh = True
         ctx.ds = self.open(ctx, "w")
         return ctx
 
@@ -81,6 +82,7 @@ class StoreAdapter(Adapter):
 
     def apply(self, ctx, act, args):
         ds = ctx.ds
+        ctx.fresh = act == "Reopen"
         try:
             if act == "Write":
                 i, d, al = args
@@ -159,7 +161,7 @@ class StoreAdapter(Adapter):
     def project(self, ctx):
         anomalies = []
         comp, nc, logs = self.observe(ctx.ds, anomalies, "live")
-        state = {"comp": comp, "nc": nc, "logs": logs, "mode": ctx.ds.mode.value}
+        state = {"comp": comp, "nc": nc, "logs": logs, "mode": ctx.ds.mode.value, "fresh": ctx.fresh}
         # validate() must report every member's checksum as correct
         try:
             v = ctx.ds.validate()
@@ -326,11 +328,11 @@ def check(run: Run):
     logids = ["l1"]
     with Scratch("C13") as scratch:
         recs, res = model(run, cfg, scratch, "emit.ndjson")
-        init = {"comp": {i: NONE for i in ids}, "nc": {i: NONE for i in ids}, "logs": {l: False for l in logids}, "mode": "w"}
+        init = {"comp": {i: NONE for i in ids}, "nc": {i: NONE for i in ids}, "logs": {l: False for l in logids}, "mode": "w", "fresh": True}
         g_dir = Graph(recs)
         g_sql = Graph(r for r in recs if not (r["act"] in ("Write", "WriteNC", "DropNC") and r["args"][-1]))
         stats = {}
-        budget = None if tier == "thorough" else int(os.environ.get("VERIF_C13_BUDGET", "40000"))
+        budget = None if tier == "thorough" else int(os.environ.get("VERIF_C13_BUDGET", "15000"))
         for name, g, ad in (("dir", g_dir, DirAdapter(ids, logids, scratch)), ("sqlite", g_sql, SqliteAdapter(ids, logids, scratch))):
             st = explore(g, init, ad, run, seed=run.seed, budget=budget)
             stats[name] = st
